@@ -27,6 +27,11 @@ func (op *FsTxn) commitWait(wait bool) bool {
 	op.preCommit()
 	ok := op.Atxn.Op.CommitWait(wait)
 	verifEvent("commit-done", op, verifBool(ok))
+	if !ok {
+		// the journal refused the transaction: nothing happened
+		op.Abort()
+		return false
+	}
 	op.postCommit()
 	verifEvent("commit-end", op, verifBool(ok))
 	return ok
